@@ -2,6 +2,8 @@
 
 package zygo
 
+import "math"
+
 // C12 — printed data reads back as the same data.
 
 // vReadOne parses txt and returns its single expression.
@@ -365,3 +367,73 @@ func vh_C12_widelits() {
 	}
 	vReach("wide")
 }
+
+// vh_C12_floats: floats print and read back.  strconv's float formatting and
+// parsing (Ryu, Eisel-Lemire) are outside what the engine can encode, so this
+// harness has no symbolic data: a grid of float64 bit patterns and of values
+// produced by arithmetic is case-split and each value goes through the real
+// printer and the real reader (the engine runs strconv's own code on the
+// concrete value).  This part of the check is bounded enumeration, not a
+// solver verdict, and is labelled so in the evidence.
+var vC12FloatBits = []uint64{
+	0x0000000000000000, 0x8000000000000000, 0x0000000000000001, 0x000fffffffffffff, 0x0010000000000000,
+	0x3ff0000000000000, 0x3ff0000000000001, 0x3fefffffffffffff, 0x3fd3333333333334, 0x3fb999999999999a,
+	0x4340000000000000, 0x4340000000000001, 0x433fffffffffffff, 0x43e0000000000000, 0x43dfffffffffffff, 0xc3e0000000000000,
+	0x43f0000000000000, 0x4480000000000000, 0x7fefffffffffffff, 0xffefffffffffffff, 0x7ff0000000000000, 0xfff0000000000000,
+	0x3949f623d5a8a733, 0x39b4484bfeebc2a0, 0x3b1f7102b5ec3d3c, 0x44b52d02c7e14af6, 0x4415af1d78b58c40,
+}
+
+var vC12FloatExprs = []string{
+	`(+ 0.1 0.2)`, `(/ 1.0 3.0)`, `(/ 2.0 3e30)`, `(/ 1.0 7e25)`, `(* (+ 0.1 0.2) 1e-25)`, `(* 1e10 1e11)`, `(* 4.0 2305843009213693952.0)`,
+	`(* 1.0 100)`, `(- 0.0 1e21)`, `(/ 1e300 1e-10)`, `(* 1.5 1e20)`, `(/ 7.0 1e22)`, `(* -1.0 0.0)`, `(+ 1e15 0.3)`,
+}
+
+func vh_C12_floats() {
+	env := vStdEnvs(1)[0]
+	var v float64
+	k := vChoice("float", len(vC12FloatBits)+len(vC12FloatExprs))
+	if k < len(vC12FloatBits) {
+		v = vFloatFromBits(vC12FloatBits[k])
+	} else {
+		res, err, p := vEvalString(env, vC12FloatExprs[k-len(vC12FloatBits)])
+		f, isF := res.(*SexpFloat)
+		if p || err != nil || !isF {
+			vAssert(false, "float-expression-evaluates")
+			return
+		}
+		v = f.Val
+	}
+	nested := vChoice("nested", 2) == 1
+	var val Sexp = &SexpFloat{Val: v}
+	if nested {
+		val = &SexpArray{Val: []Sexp{&SexpInt{Val: 1}, &SexpFloat{Val: v}}, Env: env}
+	}
+	txt := val.SexpString(nil)
+	back, ok := vReadOne(env, txt)
+	vAssert(ok, "float-print-is-readable")
+	if !ok {
+		return
+	}
+	if nested {
+		arr, isA := back.(*SexpArray)
+		vAssert(isA && len(arr.Val) == 2, "float-in-array-reads-back")
+		if !isA || len(arr.Val) != 2 {
+			return
+		}
+		back = arr.Val[1]
+	}
+	// numbers compare by value: a whole float may come back as the integer of the same value
+	switch b := back.(type) {
+	case *SexpFloat:
+		vAssert(b.Val == v || (b.Val != b.Val && v != v), "float-reads-back")
+	case *SexpInt:
+		vAssert(float64(b.Val) == v && v > -9.3e18 && v < 9.3e18, "float-reads-back")
+	default:
+		vAssert(false, "float-reads-back-as-a-number")
+	}
+	vReach("floats")
+}
+
+func vFloatFromBits(b uint64) float64 { return vMathFloat64frombits(b) }
+
+func vMathFloat64frombits(b uint64) float64 { return math.Float64frombits(b) }
